@@ -682,6 +682,13 @@ func genMint(r *vh.Rand) mintHist {
 			}
 		case 15:
 			o.Amount = h.MaxFee - 1
+		case 16, 17: // interleaved repeat: a signer replaced by a copy of a non-adjacent one ([A, B, A])
+			if len(o.Sigs) >= 3 {
+				j := r.Intn(len(o.Sigs) - 2)
+				o.Sigs[j+2] = o.Sigs[j]
+			} else if len(o.Sigs) == 2 && len(regs) >= 3 {
+				o.Sigs = append(o.Sigs, o.Sigs[0])
+			}
 		}
 		h.Ops = append(h.Ops, o)
 		usedNonces = append(usedNonces, o.Nonce)
@@ -703,7 +710,7 @@ func mainMint(o vh.Opts) {
 	rep := vh.NewReport("zcn", "C18", o)
 	rep.Rule = "histories on the real zcnsc Execute with real BLS0Chain keys: 1-6 authorizers registered through add-authorizer (owner or stranger), stake pools with 0-2 delegate pools, " +
 		"then 2-12 of mint / delete-authorizer / re-register / stake. Each mint starts from a payload that mints (threshold..threshold+2 distinct registered signers over " +
-		"GetStringToSign) and in 16 of 22 cases carries exactly one flaw: other receiver, amount below min_mint or max_fee, used nonce, duplicate instead of a signer, one signer short, " +
+		"GetStringToSign) and in 18 of 22 cases carries exactly one flaw: interleaved repeat of a signer ([A, B, A]), other receiver, amount below min_mint or max_fee, used nonce, duplicate instead of a signer, one signer short, " +
 		"entry signed for another amount/nonce/receiver/txn id, signed with another key, garbage signature, unregistered key holder, empty id, forged duplicate before/after the valid entry, " +
 		"malformed/empty payload, more entries than authorizers, deleted authorizer; percent_authorizers in {0, .25, .34, .5, .51, .66, .7, 1, 1.5}. After every successful mint four probes re-submit " +
 		"the signatures with the txn id / amount / nonce / receiver changed. non-trivial = a mint succeeded, a mint was refused and a fee was credited; distinct by full history"
@@ -755,6 +762,11 @@ func mainMint(o vh.Opts) {
 	// signatures made with other keys
 	handle(mintHist{Percent: 0.7, MinMint: 10, MaxFee: 6, MinStake: 0, Ops: []mintOp{{K: "reg", A: 1, By: "owner"}, {K: "reg", A: 2, By: "owner"}, {K: "reg", A: 3, By: "owner"},
 		{K: "mint", C: 0, Recv: 0, Amount: 1000000, Nonce: 77, Txn: 9, Sigs: []sigEntry{{1, "wrongkey"}, {2, "wrongkey"}, {3, "wrongkey"}}, Seed: 3}}})
+	// interleaved repeats: 4 authorizers at 0.7 (threshold 3); [A, B, A] and [A, B, A, B] carry two distinct signers
+	handle(mintHist{Percent: 0.7, MinMint: 10, MaxFee: 6, MinStake: 0, Ops: []mintOp{{K: "reg", A: 1, By: "owner"}, {K: "reg", A: 2, By: "owner"}, {K: "reg", A: 3, By: "owner"}, {K: "reg", A: 4, By: "owner"},
+		{K: "mint", C: 0, Recv: 0, Amount: 100, Nonce: 1, Txn: 1, Sigs: []sigEntry{{1, "ok"}, {2, "ok"}, {1, "ok"}}, Seed: 3},
+		{K: "mint", C: 0, Recv: 0, Amount: 100, Nonce: 2, Txn: 2, Sigs: []sigEntry{{3, "ok"}, {4, "ok"}, {3, "ok"}, {4, "ok"}}, Seed: 4},
+		{K: "mint", C: 0, Recv: 0, Amount: 100, Nonce: 3, Txn: 3, Sigs: []sigEntry{{2, "ok"}, {4, "ok"}, {2, "ok"}, {1, "ok"}}, Seed: 5}}})
 	ok2 := []sigEntry{{1, "ok"}, {2, "ok"}}
 	d := mintHist{Percent: 0.7, MinMint: 10, MaxFee: 6, MinStake: 0, Ops: []mintOp{{K: "reg", A: 1, By: "owner"}, {K: "reg", A: 2, By: "owner"}, {K: "reg", A: 3, By: "owner"},
 		{K: "mint", C: 0, Recv: 0, Amount: 100, Nonce: 1, Txn: 1, Sigs: ok2, Seed: 5},
